@@ -151,12 +151,83 @@ def e2e_one(chk, sseed):
         w.destroy()
 
 
+def hist_one(chk, sseed):
+    """second run over the skel of a first one: release files that disappeared upstream must not take part in the validation
+    (and must be removed); if none is left the repository fails after the configured rounds without publishing"""
+    rng = random.Random(sseed)
+    retries = rng.choice([1, 2, 3])
+    w = common.World(rng, 1, settings={"release_files_retries": str(retries)})
+    try:
+        repo = w.repos[0]
+        url = repo["url"]
+        for cs in repo["codenames"].values():
+            cs["flavours"] = ["InRelease", "Release", "Release.gpg"]
+        if common.has_s3(repo, w.cfgs[url], w.stores()[url]):
+            chk.evaluated(None)
+            return
+        res1 = w.run(chooser=vloop.RandomChooser(rng.randrange(1 << 30)))
+        if res1.exit != 0:
+            chk.evaluated(None)
+            return
+        new = common.evolve(rng, repo)
+        mode = rng.choice(["inrelease-dropped", "release-dropped", "all-dropped"])
+        for cs in new["codenames"].values():
+            cs["flavours"] = {"inrelease-dropped": ["Release", "Release.gpg"], "release-dropped": ["InRelease"],
+                              "all-dropped": ["InRelease", "Release", "Release.gpg"]}[mode]
+        store2 = w.stores([new])
+        if common.has_s3(new, w.cfgs[url], store2[url]):
+            chk.evaluated(None)
+            return
+        plan = []
+        if mode == "all-dropped":
+            for cn in new["codenames"]:
+                for nm in ("InRelease", "Release", "Release.gpg"):
+                    plan.append([f"dists/{cn}/{nm}", "*", "404"])
+        before = run_e2e.dists_view(w.sb, url)
+        res = run_e2e.execute(w.sb, [new], store2, {url: plan}, vloop.RandomChooser(rng.randrange(1 << 30)))
+        r = res.obs.repos[url]
+        rounds = len(r["rounds"])
+        replay = {"scenario_seed": sseed, "history": True, "mode": mode, "retries": retries}
+        if mode == "all-dropped":
+            if res.exit == 0:
+                chk.violation("history:no-release-file-but-exit0", replay, "no release file exists upstream any more, yet the run exits 0 (stale skel copies used)")
+            if rounds != retries:
+                chk.violation("history:release-rounds", replay, f"{rounds} release rounds, configured {retries}")
+            if run_e2e.dists_view(w.sb, url) != before:
+                chk.violation("history:published-without-release", replay, "something was published although no release file exists")
+        else:
+            if res.exit != 0:
+                chk.violation("history:disappeared-flavour-fails-run", replay,
+                              f"{mode}: the remaining release files agree with themselves, exit {res.exit} after {rounds} rounds")
+            elif rounds != 1:
+                chk.violation("history:release-rounds", replay, f"{mode}: {rounds} rounds although the release files agree")
+            gone = "InRelease" if mode == "inrelease-dropped" else "Release"
+            for cn in w.cfgs[url]["codenames"]:
+                for root in (runner.skel_dir(w.sb, url), runner.mirror_dir(w.sb, url)):
+                    if res.exit == 0 and os.path.exists(os.path.join(root, "dists", cn, gone)):
+                        chk.violation("history:stale-release-file-kept", replay, f"{gone} of {cn} disappeared upstream but is still in {os.path.basename(os.path.dirname(os.path.dirname(os.path.dirname(root))))}")
+        for d in observe_mod().control_disagreements(r):
+            chk.violation("correspondence-control", dict(replay, disagreement=d, correspondence="mirrorControl"), d, no_input=True)
+        chk.evaluated(("hist", mode, retries), sample={"mode": mode, "retries": retries, "rounds": rounds, "exit": res.exit})
+        chk.count("history_runs")
+        chk.traces += 2
+    finally:
+        w.destroy()
+
+
+def observe_mod():
+    from e2e import observe
+    return observe
+
+
 def run(chk, tier, rng):
     n = 150 if tier == "quick" else 4000
     for i in range(n):
         l0_one(chk, random.Random(f"C11-{chk.seed}-{i}"))
     for i in range(25 if tier == "quick" else 600):
         e2e_one(chk, f"C11e-{chk.seed}-{i}")
+    for i in range(15 if tier == "quick" else 300):
+        hist_one(chk, f"C11h-{chk.seed}-{i}")
     chk.assumptions += ["entries with a non-positive size or a release-file name are not compared (as the code does)",
                         "S12: deb822 tokenisation is third-party"]
 
@@ -167,7 +238,7 @@ def replay(rep):
         from core.check import Check
         chk = Check("C11", "quick", 0)
         chk.known = []
-        e2e_one(chk, r["scenario_seed"])
+        (hist_one if r.get("history") else e2e_one)(chk, r["scenario_seed"])
         for sig, path, msg, _ in chk.violations:
             print(f"REPLAY VIOLATION {sig}: {msg}")
         return 1 if chk.violations else 0
